@@ -283,6 +283,22 @@ func c12Check(e *core.Env, r *core.Rand, d *gen.Out, f string, q query, agg stri
 		e.Violation("report-fails", fmt.Sprintf("%s failed although every open range is closeable: %s %s", w["view"], res.Err.Error(), res.Err.Details()), w)
 		return
 	}
+	if core.Hash64("cli", d.Text, fmt.Sprint(w["view"]))%20 == 0 {
+		args := []string{"report", "--aggregate", agg, "--decimal", "--no-warn", "--no-style"}
+		if fill {
+			args = append(args, "--fill")
+		}
+		if diff {
+			args = append(args, "--diff")
+		}
+		if now {
+			args = append(args, "--now")
+		}
+		args = append(append(args, q.Args()...), f)
+		if !cliAgrees(e, w, args, cpus, "", "", clock, res.Out, false) {
+			return
+		}
+	}
 	tres := runRO(e, &cli.Total{FilterArgs: fa, DiffArgs: util.DiffArgs{Diff: diff}, NowArgs: util.NowArgs{Now: now}, DecimalArgs: util.DecimalArgs{Decimal: true},
 		WarnArgs: util.WarnArgs{NoWarn: true}, NoStyleArgs: util.NoStyleArgs{NoStyle: true}, InputFilesArgs: util.InputFilesArgs{File: files(f)}}, cpus, "", "", clock)
 	if tres.Panic != nil || tres.Err != nil {
